@@ -173,6 +173,13 @@ func (m c04) challengeValue(r *core.Rand, i int) {
 	case 3:
 		origins = []string{string(alnum(r, r.Of(1000, 65535)))}
 	}
+	if i%16 == 7 {
+		// many origin names (the field is one comma-separated string of up to 65535 bytes)
+		origins = nil
+		for k := 0; k < r.Of(1023, 1024, 1025, 4000, 16000); k++ {
+			origins = append(origins, string(alnum(r, 1+r.IntN(2))))
+		}
+	}
 	v := tokens.TokenChallenge{TokenType: uint16(r.Of(0, 1, 2, 3, 5, 0xffff, r.IntN(65536))), IssuerName: string(r.Bytes(il)), RedemptionNonce: r.Bytes(nl), OriginInfo: origins}
 	if strings.Contains(v.IssuerName, "\x00") && false {
 		return
@@ -778,6 +785,8 @@ func (m c04) batchValue(r *core.Rand, i int) {
 			return
 		}
 		m.batchAccepted(want, "canonical", true)
+		m.batchAccepted([]byte{0}, "empty-list", false)
+		m.batchAccepted([]byte{0x40, 0}, "empty-list-2-byte-varint", false)
 		c.Class("value_roundtrip_ok")
 		c.Distinctf("batch:value:%d", n)
 		// non-canonical forms and mutations
@@ -840,6 +849,17 @@ func (m c04) batchAccepted(b []byte, class string, must bool) {
 	if !q2.Unmarshal(clone(b)) || !bytes.Equal(q2.Marshal(), got) {
 		m.bad("batched.TokenRequest:reuse", "reused batch object gives a different encoding", d)
 		return
+	}
+	// reuse: an object that held ANOTHER batch (two type-1 requests) before
+	q3 := new(batched.BatchedTokenRequest)
+	other := encBatch([]refReq{{1, 7, bytes.Repeat([]byte{2}, 49)}, {1, 9, bytes.Repeat([]byte{3}, 49)}})
+	if q3.Unmarshal(other) {
+		q3.Marshal()
+		if !q3.Unmarshal(clone(b)) || !bytes.Equal(q3.Marshal(), got) {
+			d["previous"] = core.Hex(other)
+			m.bad("batched.TokenRequest:reuse-after-other-value", "a batch object that held another batch before does not give the encoding of the batch just decoded", d)
+			return
+		}
 	}
 	c.Class("accepted_bytes_checked")
 	c.Class("reuse_checked")
